@@ -92,8 +92,8 @@ def monitor(pid, obs_path, nrecords):
     return out, r
 
 
-def report(pid, falsified):
-    """Applies known_findings.json and writes violation files. Returns (exit_code, n_unlisted)."""
+def report(pid, falsified, extra=None):
+    """Applies known_findings.json and writes violation files. Returns (exit_code, n_unlisted, result of the extension stage)."""
     verdict = vlib.Verdict(pid)
     known = [k for k in vlib.load_known().get("findings", []) if k.get("property") == pid]
     n_unknown = 0
@@ -116,10 +116,11 @@ def report(pid, falsified):
             desc += f"; row {rec.get('name')} api {rec.get('api')} local binding {rec.get('bind')} families {rec.get('families')}; {rec.get('msg', '')}"
         verdict.violation(key, desc, {"kind": "eyeballs", "layer": layer, "clauses": clauses,
                                       "records": [{"sid": rec["sid"], "name": rec.get("name"), "v": rec["v"], "o_recorded": rec["o"]}]})
-    code, _ = verdict.finish()
+    call = extra(verdict) if extra else None      # extension stage (own spec, same verdict)
+    code, n_all = verdict.finish()
     if n_unknown > KNOWN_CAP:
         vlib.log(f"  ... {n_unknown} falsified records in total; the first {KNOWN_CAP} were written")
-    return code, n_unknown
+    return code, max(n_unknown, n_all), call
 
 
 def run(pid, tier, seed, t0):
@@ -201,7 +202,9 @@ def run(pid, tier, seed, t0):
 
     # 3. the property formulas over the real observations, by TLC ---------------------------------------------------------
     falsified, mon = monitor(pid, obs, nrec)
-    code, n_unknown = report(pid, falsified)
+    # TcpCall.tla: the whole transport call (URI -> host/port -> resolver -> sort -> eyeballs with per-attempt connect_timeout)
+    import x_tcpcall
+    code, n_unknown, call = report(pid, falsified, lambda v: x_tcpcall.stage(pid, tier, seed, v))
 
     mirror_flag = summ["mirror_flag_c10"] if pid == "C10" else summ["mirror_flag_c11"]
     n_init4 = m4.coverage().get("Init4", (0, 0))[0] if m4 else 0
@@ -221,6 +224,7 @@ def run(pid, tier, seed, t0):
                   "states": m.distinct, "terminal_observations": summ["pairs"], "tlc_wall_s": round(m.wall, 1)},
         "directed_n4_model": ({"cfg": T["cfg4"], "states": m4.distinct, "initial_states": n_init4,
                                "scenarios_with_4_attempts_run": summ["scenarios_with_4_attempts"]} if m4 else None),
+        "tcp_call_model": call,
         "tcp_layer_model": {"module": "MC_TcpEyeballs", "cfg": "TcpEyeballs_quick.cfg", "states": mt.distinct,
                             "initial_states": mt.coverage().get("TcpInit", (0, 0))[0],
                             "invariants": ["TypeOK", "TcpC10Inv", "TcpC11Inv", "TcpDelayInv"], "refuted_variants": variants},
@@ -248,6 +252,12 @@ def replay(pid, path):
     od = vlib.outdir(pid)
     doc = json.load(open(path))
     rp = doc.get("replay", doc)
+    if rp.get("kind") == "tcpcall-row":
+        import x_tcpcall
+        code = x_tcpcall.replay(pid, doc)
+        if code:
+            print(f"VIOLATION property={pid} replay={path}", flush=True)
+        return code
     out = os.path.join(od, "replay.ndjson")
     if rp.get("layer") == "tcp":
         tcpvec = os.path.join(od, "tcpvec-replay.txt")
